@@ -1732,6 +1732,7 @@ func simBias(prop string, rng *vRand) map[string]bool {
 		pick("emptyresolve", 35)
 		pick("shutdown", 30)
 		pick("refresh", 30)
+		pick("orphan-refresh", 25)
 	case "C04":
 		pick("states", 100)
 		pick("shutdown", 50)
@@ -1875,6 +1876,9 @@ func simRunCase(env vEnv, out *vOut, idx int64) *sim {
 		cp.BindPickStrategy = pb.ChannelPoolConfig_ROUND_ROBIN
 	} else if rng.Chance(30) {
 		cp.BindPickStrategy = pb.ChannelPoolConfig_LEAST_ACTIVE_STREAMS
+	} else if rng.Chance(6) {
+		// an enum value this version does not know (legal on the wire): not ROUND_ROBIN
+		cp.BindPickStrategy = pb.ChannelPoolConfig_BindPickStrategy(3)
 	}
 	s.cp = cp
 	s.rr = cp.BindPickStrategy == pb.ChannelPoolConfig_ROUND_ROBIN
@@ -2771,6 +2775,19 @@ func (s *sim) macroShutdownDuringRefresh() bool {
 		}
 	}
 	keyedCalls()
+	if !ok() {
+		return true
+	}
+	// a call still in flight on the old connection ends with the client-side deadline
+	// error: the refresh of this channel is in progress, no further replacement may be created
+	for i, c := range s.calls {
+		if c.ch == ch && c.ctx.hasDl {
+			verifClock = verifClock.Add(time.Hour)
+			s.hit("C07.timeout-while-old-connection-gone")
+			s.finish(i, "de", nil)
+			break
+		}
+	}
 	if !ok() {
 		return true
 	}
